@@ -121,6 +121,13 @@ def emit_graph(wd, cfg, name, stats):
         raise ToolError("MC_ClientStoreGraph: %s" % r.violated)
     if not init:
         raise ToolError("TLC printed no INIT line")
+    # TLC's workers print in any order: renumber the stores and order the edges canonically, so that the graph file (and the
+    # walk over it) is the same in every run
+    order = sorted(range(len(states)), key=lambda i: canon(states[i]))
+    newid = {old: new for new, old in enumerate(order)}
+    states = [states[i] for i in order]
+    ids = {k: newid[i] for k, i in ids.items()}
+    elist = sorted(((newid[a], newid[b], op, dev) for (a, b, op, dev) in elist), key=lambda e: (e[0], canon(e[2]), e[3], e[1]))
     path = os.path.join(wd, "graph_%s.ndjson" % name)
     with open(path, "w") as f:
         f.write(json.dumps({"init": init[0]}) + "\n")
